@@ -18,6 +18,22 @@ def gen_units(rng, single=None, hosted=None, broken_p=0.0):
     return False, [[u, execlib.gen_layout(rng, broken_p)] for u in ids]
 
 
+def crc16(bs):
+    crc = 0xFFFF
+    for b in bs:
+        crc ^= b
+        for _ in range(8):
+            crc = (crc >> 1) ^ 0xA001 if crc & 1 else crc >> 1
+    return crc
+
+
+def lookalike_tid(rng, prev_mbap_frame):
+    """a transaction id equal to a checksum of the MBAP frame in front of it (unit id + PDU)"""
+    body = prev_mbap_frame[6:]
+    c = crc16(body)
+    return rng.choice([c, ((c & 255) << 8) | (c >> 8), (-sum(body)) & 0xFF, crc16(prev_mbap_frame)])
+
+
 def frame_fc(framer, frame):
     """the function code byte of a response ADU as written on the wire"""
     try:
